@@ -131,7 +131,7 @@ static Verdict run_prims(const Case &c) {
 }
 
 // ---------------- part 1: documented frame flow (Darwin glue) driven by frame histories
-// ops: 1 discover(mapper, gen_sel, acking, xid) | 2 hello flood(n) | 3 reset(bcast) | 4 charge | 5 other opcode(x) | 6 silence(ms, jump?) 
+// ops: 1 discover(mapper, gen_sel, acking, xid, first listed station) | 7 discovers from n mappers | 2 hello flood(n) | 3 reset(bcast) | 4 charge | 5 other opcode(x) | 6 silence(ms, jump?) 
 static Verdict run_flow(const Case &c) {
     Verdict v;
     World w;
@@ -144,7 +144,7 @@ static Verdict run_flow(const Case &c) {
     d.ctx = w.ctx(ifi); d.send_hello = on_hello; d.user = &mon; d.call_parse_frame = 1; d.skip_trailing_tick = 1;
     if (br_darwin_init(&d) != 0) { v.fail("constructors failed"); g_mon = nullptr; return v; }
     Model md;
-    int suppressed = 0;
+    int suppressed = 0, full_refusals = 0;
     auto do_tick = [&](size_t i) { tick_and_judge(v, mon, md, i, d.enumeration, [&] { br_darwin_idle_tick(&d); }, suppressed); };
     auto rx = [&](size_t i, const Bytes &f, bool is_discover_01) {
         uint8_t *tf;
@@ -162,20 +162,26 @@ static Verdict run_flow(const Case &c) {
     };
     for (size_t i = 0; i < c.ops.size() && v.ok; i++) {
         const Op &op = c.ops[i];
-        Mac mapper = mac_from_u64(0x02AA00000000ULL + (uint64_t)(op.arg(0) & 3));
+        Mac mapper = mac_from_u64(0x02AA00000000ULL + (uint64_t)(((op.arg(0) % 24) + 24) % 24));
         uint64_t now = vp_now_ms();
+        auto discover = [&](const Mac &mp, uint16_t gen, bool acking, uint16_t xid, int first) {
+            // the acknowledged stations: any address may precede this station's own one in the list
+            static const uint64_t firsts[] = {0x0600BB000001ULL, 0x000000000000ULL, 0xFFFFFFFFFFFFULL, 0x01005E000001ULL};
+            std::vector<Mac> st = {mac_from_u64(firsts[first & 3]), acking ? ic.mac : mac_from_u64(0x0600BB000002ULL)};
+            Key k = {mac_to_u64(mp), gen};
+            uint64_t t = vp_now_ms();
+            auto it = md.t.find(k);
+            if (it != md.t.end()) { it->second.last_ms = t; if (acking && !it->second.complete) { it->second.complete = true; md.completed++; } }
+            else if (md.t.size() < 16) { md.t[k] = MSess{acking, t}; if (acking) md.completed++; }
+            else full_refusals++;
+            rx(i, mk_discover(mp, mp, 0, xid, gen, st), true);
+        };
         switch (op.kind) {
-            case 1: {
-                uint16_t gen = op.arg(1) & 1 ? 0x0202 : 5;
-                bool acking = op.arg(2) & 1;
-                std::vector<Mac> st = {mac_from_u64(0x0600BB000001ULL), acking ? ic.mac : mac_from_u64(0x0600BB000002ULL)};
-                Key k = {mac_to_u64(mapper), gen};
-                auto it = md.t.find(k);
-                if (it != md.t.end()) { it->second.last_ms = now; if (acking && !it->second.complete) { it->second.complete = true; md.completed++; } }
-                else if (md.t.size() < 16) { md.t[k] = MSess{acking, now}; if (acking) md.completed++; }
-                rx(i, mk_discover(mapper, mapper, 0, (uint16_t)op.arg(3), gen, st), true);
+            case 1: discover(mapper, op.arg(1) & 1 ? 0x0202 : 5, op.arg(2) & 1, (uint16_t)op.arg(3), (int)op.arg(4)); break;
+            case 7:   // many mappers at once (a: how many, acknowledging, generation selector, first mapper): fills the table, then exceeds it
+                for (int64_t n = 0; n < std::min<int64_t>(op.arg(0), 20) && v.ok; n++)
+                    discover(mac_from_u64(0x02AA00000000ULL + (uint64_t)((op.arg(3) + n) % 24)), op.arg(2) & 1 ? 0x0202 : 5, op.arg(1) & 1, (uint16_t)(n + 1), 0);
                 break;
-            }
             case 2: for (int64_t n = 0; n < std::min<int64_t>(op.arg(0), 40) && v.ok; n++) rx(i, mk_hello(mac_from_u64(0x0400F0000000ULL + (uint64_t)n), 0, 5, mapper, mapper), false); break;
             case 3: { if (!md.t.empty()) md.removed++; md.t.clear(); Mac dst = op.arg(1) & 1 ? BCAST : ic.mac; rx(i, mk_simple(dst, mapper, 0, OP_RESET, dst, mapper, 0), false); break; }
             case 4: rx(i, mk_simple(ic.mac, mapper, 0, OP_CHARGE, ic.mac, mapper, 0), false); break;
@@ -198,6 +204,7 @@ static Verdict run_flow(const Case &c) {
     if (md.removed) v.cls("session-removed");
     if (md.dropped30) v.cls("30s-drop");
     if (suppressed) v.cls("suppression-path");
+    if (full_refusals) v.cls("discover-while-the-table-is-full");
     g_mon = nullptr;
     return v;
 }
@@ -248,8 +255,9 @@ int main(int argc, char **argv) {
             c.ops = *rc::gen::resize(n, rc::gen::container<std::vector<Op>>(rc::gen::exec([=] {
                 Op o;
                 int k = *gx::range<int>(0, 19);
-                int64_t mp = *gx::range<int64_t>(0, 3);
-                if (k <= 6) { o.kind = 1; o.a = {mp, *gx::pick({0, 1}), *gx::pick({0, 0, 1}), *gx::range<int64_t>(0, 3)}; }
+                int64_t mp = *gx::chance(85) ? *gx::range<int64_t>(0, 3) : *gx::range<int64_t>(0, 23);
+                if (k <= 5) { o.kind = 1; o.a = {mp, *gx::pick({0, 1}), *gx::pick({0, 0, 1}), *gx::range<int64_t>(0, 3), *gx::pick({0, 0, 0, 1, 2, 3})}; }
+                else if (k == 6) { o.kind = 7; o.a = {*gx::pick({3, 8, 15, 16, 17, 20}), *gx::pick({0, 1, 1}), *gx::pick({0, 1}), *gx::range<int64_t>(0, 23)}; }
                 else if (k <= 8) { o.kind = 2; o.a = {*gx::bnd({1, 9, 10, 11, 40}, 1, 40, 1, 1), mp}; }
                 else if (k == 9) { o.kind = 3; o.a = {mp, *gx::pick({0, 1})}; }
                 else if (k == 10) { o.kind = 4; o.a = {mp}; }
